@@ -147,8 +147,18 @@ def rule_r2(facts, rep, rid="C03-R2"):
     tab = recursion_table()
     n = 0
     seen_keys = set()
-    for scc in sorted(sccs, key=lambda s: scc_key(s)):
-        key = scc_key(scc)
+    # a recursive helper that is analysed specialised into several independent wrappers (vlib/inline.py) is one cycle per wrapper
+    separately = getattr(facts, "specialised_separately", None) or set()
+    work = []
+    for scc in sccs:
+        bare = set(_CLOS.sub("", d) for d in scc)
+        sep = [d for d in bare if d in separately]
+        if sep and all(d in separately or d in _ABSORBED for d in bare):
+            for w in sorted(set(w_ for d in sep for w_ in _SPECIALISED.get(d, []))):
+                work.append((w, frozenset([w])))
+        else:
+            work.append((scc_key(scc), scc))
+    for key, scc in sorted(work, key=lambda kv: kv[0]):
         if key in seen_keys:
             continue
         seen_keys.add(key)
@@ -160,6 +170,31 @@ def rule_r2(facts, rep, rid="C03-R2"):
         if f0:
             rep.saw_fn(f0)
         ent = tab.get(key)
+        if ent is None:
+            members = sorted(set(key.split("+")))
+            # (a) a recorded helper of the cycle was inlined into a member and deleted: the audited cycle named it too
+            moved = getattr(facts, "moved_into", None) or {}
+            extra = sorted(set(m_ for d_ in members for m_ in moved.get(d_, [])))
+            if extra:
+                alt = "+".join(sorted(set(members + extra)))
+                if alt in tab:
+                    ent, key = tab[alt], alt
+            # (b) a recorded pass-through fn now sits on the cycle (`to_graph_inline` recursing through `to_graph_inlines`): the audited cycle is
+            #     the part of it that was recursive before, if the rest only forwards into it
+            if ent is None and len(members) > 1:
+                for sub_n in range(len(members) - 1, 0, -1):
+                    import itertools
+                    for sub in itertools.combinations(members, sub_n):
+                        k_ = "+".join(sub)
+                        if k_ in tab:
+                            rest = [d_ for d_ in members if d_ not in sub]
+                            forwards = all(set(x_ for x_ in cg.edges.get(d_, ()) if x_ in cg.local and not x_.startswith(d_ + "::{closure")) <= set(members)
+                                           for d_ in rest)
+                            if forwards:
+                                ent, key = tab[k_], k_
+                                break
+                    if ent is not None:
+                        break
         ikey = "recursion|%s" % key
         if ent is None:
             rep.violation(rid, ikey + "|new", "new recursion cycle (driven by: %s) reachable from the input-facing roots; it has no audited termination / depth measure "
